@@ -15,7 +15,7 @@ CHECKS = {
     "C02": ("fault_enumeration", "exhaustive enumeration of all loss subsets / duplication multisets of recorded real sessions, each pushed into the real receiver", "gridx",
             "DESIGN.md §3 C02",
             "For every recorded single-object session of up to 11 (16 thorough) object packets (scheme x (k,parity) x block shape x interleave x signalling x transfer count) all 2^n loss subsets and all 3^n lost/once/twice vectors (n <= 7 / 10) are delivered with the FDT first, only after the object, or never; sessions of 30-50 packets get every pattern of at most 2 / 3 losses and every (loss, duplicate) pair; two-object sessions (multiplexed or sequential, one or two queues, both publish modes, 60 configurations) get every loss subset over ALL packets, FDT packets included. Whenever the harness's own RFC decode says the property's premise holds (a complete FDT instance listing the object arrived, every block keeps enough symbols) the real receiver must deliver exactly one complete byte-exact copy.",
-            "Trusted: the recoverability predicate (independent RFC decode + 128-bit partition reference); 'FDT late' = the recorded FDT packets re-delivered after the object; sessions above 14 packets are outside the bound (no sampling is used)."),
+            "Trusted: the recoverability predicate (independent RFC decode + 128-bit partition reference); 'FDT late' = the recorded FDT packets re-delivered after the object; single-object sessions above 16 packets get bounded loss counts instead of all subsets (no sampling is used)."),
     "C03": ("model_checking", "exhaustive exploration of all orderings / repetition sequences / sub-multisets / single-packet corruptions of recorded sessions on the real receiver", "gridx",
             "DESIGN.md §3 C03",
             "All n! orderings (n <= 7 quick, 9 thorough), all sequences with repetition up to length 5/7, all subsets in emission and reverse order, every payload byte x {0x01,0x80,0xFF} and every truncation of every object packet, and families of whole-session orders for large sessions, of recorded real sessions (all schemes incl. Raptor(Q) with sub-blocks and degenerate partitions, cenc, every FTI x CENC x MD5 signalling combination, session default OTI resembling the object's, two-transfer, carousel, two-object sessions in both publish modes, large incompressible content-encoded objects wrapping the inflate ring) are pushed into the real MultiReceiver; on every execution every writer that saw complete must hold exactly the sender's bytes of that TOI, no writer gets two terminal calls, and an altered object never stays open.",
@@ -27,7 +27,7 @@ CHECKS = {
     "C06": ("exploration", "exhaustive finite grids of packets: flute's encoder against an independent RFC decoder and an independent RFC encoder against flute's parser", "gridx",
             "DESIGN.md §3 C06 + appendix A",
             "Encode direction: the full product of CCI/TSI/TOI width classes (min, max, pattern per class) x close flag x 6 codepoints x 8 extension sets, per-scheme EXT_FTI boundary values, payload-id ranges, SCT instants from 1970 to the NTP era end, FDT ids and versions, and a walking one through every bit of every variable-width field, built by flute's packet builder and decoded field by field by rfc.rs and by flute itself; the sender's close-session packet; and sender streams: every packet of real Sender sessions (5 schemes x 6 TOI widths x 6 TSI classes x 2 profiles x start ids around the 20-bit wrap x SCT x FDT encodings x publish modes) decoded by both. Decode direction: rfc.rs packets over every (C,S,O,H) combination, flags, extension orders with unknown variable-length (HEL 1..200) and fixed-length extensions at every position, six EXT_TIME shapes (SCT-High/Low, ERT, SLC), FTI / payload-id / SCT boundary values and walking ones, parsed by flute.",
-            "Trusted: rfc.rs (written from the RFC texts, appendix A of DESIGN.md). Values inside a width class are the class bounds and one pattern, not every value."),
+            "Trusted: rfc.rs (written from the RFC texts, appendix A of DESIGN.md). Values inside a width class are the class bounds, one pattern and a walking one, not every value."),
     "C08": ("model_checking", "exhaustive configuration grid x one deviation (remove_object after every packet index) on the real Sender, stream decoded by an independent codec", "seqx",
             "DESIGN.md §3 C08",
             "For scheme x (E,B) x parity x every L <= 3EB+2 (5EB+2 and more (E,B) thorough) x interleave 1..3 x cenc x transfer count 1..3 x carousel, objects of 255-1500 source blocks, and the removal of the object after every packet index with and without immediate stop, the real Sender is drained and every complete transfer (delimited by Subscriber events) is checked symbol by symbol against the RFC slices of the transfer-encoded object; B only on the final packet / the one packet after a forced stop / the lone packet of an empty object; A only on read_close_session.",
@@ -43,7 +43,7 @@ CHECKS = {
     "C11": ("model_checking", "explicit-state BFS over the real Sender's transition function, states merged on a canonical fingerprint of the whole Sender plus monitor state", "statex",
             "DESIGN.md §3 C11",
             "All histories over {add (catalogue order), publish, remove, one read, tick, read-only API calls} to depth 8 (quick) / 11 (thorough, state cap reported) for both publish modes x multiplex 1..2 x 1..2 queues x multi-packet and single-packet FDT instances x four catalogues (plain; repeated transfer + carousel + start time; transfer counts 0 and 3 + zero-delay carousel; low priority first); the monitor reassembles every FDT instance from the TOI-0 packets with the independent codec and requires, for every object packet, a completely emitted instance listing its TOI, no object packet inside a partly emitted instance, and none between a publication (explicit, or automatic at transfer start) and the complete emission of a new instance.",
-            "Trusted: rfc.rs, the fingerprint (compact derived Debug of the Sender; checked on every run against the general canonicaliser and by re-running the search), the small catalogue of 3 objects."),
+            "Trusted: rfc.rs, the fingerprint (compact derived Debug of the real Sender; checked on every run against the general canonicaliser and by re-running the search), catalogues of 3 objects."),
     "C12": ("model_checking", "explicit-state BFS over the real Sender's transition function with a lifecycle reference monitor", "statex",
             "DESIGN.md §3 C12",
             "All histories over {add, publish, remove, trigger(none|+2 ticks), one read, drain, tick 0.5 s / 1.5 s} to depth 7 (quick) / 9 (thorough, cap 60 k states reported) for max_transfer_count 1..3 x carousel none/delay/interval/zero delay/zero interval x immediate stop x publish mode x multiplex 1..2; a reference counter per object fed by Subscriber events and independently decoded packets decides: never more transfers than configured, finished or removed objects disappear from is_added / nb_objects / get_objects_in_fdt, nb_transfers equals the Stop events, removal semantics (nothing after removing a waiting object; at most one flagged packet after a forced stop; no new transfer after removal), a read that returns None never leaves an eligible transfer or a due carousel turn behind, drains terminate.",
@@ -71,7 +71,7 @@ CHECKS = {
     "C18": ("model_checking", "exhaustive interleavings of recorded sessions + explicit-state BFS of the TSI filter against a counter reference + deviation-bounded exploration of clock reads for listener events, all on the real MultiReceiver", "statex",
             "DESIGN.md §3 C18",
             "Isolation: every interleaving of 2-4 recorded sessions (same TSI on two endpoints, two TSIs on one endpoint, same destination with and without source; long and short streams) is pushed into one MultiReceiver and each session's writer/FDT callbacks (with their endpoint and TSI) must equal the session run alone. Filter: BFS over all sequences of the 24 add/remove listen operations and set_tsi_filtering to depth 4 (quick) / 7 (thorough), states merged on reference counters + probe vector + the REAL demultiplexing state (hook verif_state); after every operation 8 probe packets decide processed/dropped against reference counters. Listener: every history over {data s, close-session s, tick+cleanup} up to length 5/7 for 2 sessions, with a 6 s jump of the virtual Instant injected before every single clock read (every pair in thorough): the event word of each session must be (open close)* once the receiver is dropped, a data packet leaves its session open, a close-session packet leaves it closed, and after every cleanup a session idle for more than the time-out has been closed and a younger one has not. Registry: every history over {data, close, tick+cleanup, add listener, remove listener k} up to length 6/7: each listener sees exactly what a permanent listener sees between its registration and its removal.",
-            "Trusted: the virtual Instant hook (H2) and its read counter; the probe = a single-packet FDT instance observed through fdt_received."),
+            "Trusted: the virtual Instant hook (H2) and its read counter; hook H6 (verif_state) as the real-state part of the filter search key; the probe = a single-packet FDT instance observed through fdt_received."),
     "C19": ("model_checking", "exhaustive grid of two-clock scenarios (sender SCT/Expires vs receiver `now`) with harness-crafted packets on the real MultiReceiver, verdict compared with a two-clock reference model", "gridx",
             "DESIGN.md §3 C19",
             "Full product of SCT-Expires {-1h,-3s,+3s,+1h} (8 values thorough) x SCT present/absent x receiver clock offset {0, +-3 s, +-1 h, +-400 d, +-20 y} (16 values thorough) x expiry check on/off x six arrival orders {FDT then object, object (in-band FTI) then FDT, object (cached) then FDT, FDT-cleanup-object, two objects one early one late, two FDT instances with the object announced only by the older one} x object estimate-Expires x FDT in 1 packet / 3 packets 1 s apart / 3 packets 40 s apart (the last packet's SCT and arrival anchor the estimate): delivered iff the estimate of the sender clock at the moment delivery starts is <= Expires (always with the check off); when not delivered no writer is obtained and nb_objects_error stays 0; with SCT the verdict is the same for every offset. Real Sender sessions (SCT on/off) are run under every offset as a sanity layer.",
